@@ -192,6 +192,27 @@ check("C13", "exploration",
       "DESIGN.md section 3 C13")
 
 
+check("C15", "exploration",
+      "Definition histories across real processes: sequences of define(variant, new/same process, bytecode on/off) of one same-named "
+      "class interleaved with cache tampering (foreign module seeded, .py deleted with its .pyc kept, same-second mtime forced from the "
+      "child's close hook, cache removed) over designed same-length variant pairs, option-only variants and generated declarations. "
+      "After every define a behaviour probe is compared with the reference model of that variant and earlier classes of the process "
+      "are probed again; the observed file-system trace separates cache hits from rewrites.",
+      "Trusts the probe vectors to distinguish variants and the forced mtime as a faithful stand-in for a same-second write. Histories are sampled.",
+      "runtime monitoring: process-level history exploration with fault injection at file-system hooks + behaviour probe against the reference model",
+      "DESIGN.md section 3 C15")
+
+check("C16", "fault_enumeration",
+      "Crash points: a definer is killed just before every observed file-system step of the cache update and after every 16th (quick) / "
+      "every (thorough) byte of every write, from an empty cache and during a rewrite; fresh processes then define the same and a "
+      "different same-named declaration. Schedules: two gated definers (identical / different declarations, clean / pre-seeded cache) "
+      "are driven step by step through seeded (quick) or depth-first enumerated (thorough, bounded) interleavings, followed by a late "
+      "definer. Stress: free-running processes redefining two variants in one directory. Every definition must succeed and probe per its own declaration.",
+      "Crash = os._exit at an observed step (no power-loss reordering); interleavings at the granularity of coarsened file-system steps. Watchdog expiry is inconclusive.",
+      "runtime monitoring: crash-point enumeration + controlled two-process scheduler + stress, behaviour probe oracle",
+      "DESIGN.md section 3 C16")
+
+
 def build():
     import glob
     props = []
